@@ -12,7 +12,9 @@
    builds from any argument list.  `named_dispatch (d_info d) args = Some h`: the named constructor takes
    the call (args is one Hash h that is an instance of the init Struct); `= None`: the positional one is
    tried (a single Hash can still be a positional argument when the first attribute has type Any).
-   Attribute types: Integer[lo,hi], String, Boolean, Optional[T], Array[T], Any, Undef, Variant[Undef,T] —
+   Attribute types: Integer[lo,hi], String, Boolean, Optional[T], Array[T], Any, Undef, Variant[Undef,T],
+   Struct[{k => T, Optional[k] => T, NotUndef[k] => T, ...}] at any nesting (values: Hashes that may leave optional
+   members out; the named constructor checks them against typeAndInit of the type, `type_and_init`) —
    so a given_or_derived attribute may (Optional) or may not (Any, Undef, Variant) carry the implicit value
    undef; `default_of a` is undef for given_or_derived, the declared value otherwise.
    Guard.  `ser_complete d = true` excludes exactly the input class of the open finding
@@ -169,6 +171,35 @@ Theorem C17_ctor_reports :
 Proof. exact acc_new_object_total. Qed.
 Print Assumptions C17_ctor_reports.
 
+(* ---- the type a named argument is checked against (createInitType / typeAndInit) ----
+   The named constructor checks the value given for attribute a against typeAndInit(a's type), the positional one
+   against a's type.  For EVERY type of the fragment (any nesting of Optional, Array, Variant[Undef,.] and Struct
+   around the scalars) the derived type is the declared type: it has the same instances, and a Struct member keeps
+   its key - a member that may be left out of a positional value may be left out of the named one (the premise
+   under which C17_pos_named_equal / C17_named_pos_equal / C17_init_hash_roundtrip, whose model `init_struct`
+   contains type_and_init, hold for Struct-typed attributes). *)
+Theorem C17_init_type_is_declared_type :
+  forall t, type_and_init t = t.
+Proof. exact type_and_init_id. Qed.
+Print Assumptions C17_init_type_is_declared_type.
+
+Theorem C17_named_argument_type_same_instances :
+  forall t v, inst (type_and_init t) v = inst t v.
+Proof. exact inst_type_and_init. Qed.
+Print Assumptions C17_named_argument_type_same_instances.
+
+Theorem C17_struct_member_keys_kept :
+  forall t, struct_reqs (type_and_init t) = struct_reqs t.
+Proof. exact struct_reqs_type_and_init. Qed.
+Print Assumptions C17_struct_member_keys_kept.
+
+(* the Struct type in the signature of the named constructor (compared with the implementation's on every run) is
+   the test the dispatch applies: named_dispatch takes [v] exactly when v is an instance of it *)
+Theorem C17_init_type_is_named_dispatch_test :
+  forall info v, inst (init_type info) v = struct_inst (init_struct info) v.
+Proof. exact init_type_inst. Qed.
+Print Assumptions C17_init_type_is_named_dispatch_test.
+
 (* ---- the open finding: the unguarded statement is false of the faithful model ---- *)
 Definition C17_statement : Prop :=
   forall d, accepted d ->
@@ -274,4 +305,42 @@ Proof.
   destruct (define RText [] (s2l "Tg") ex_tg) as [tg|] eqn:E; [|vm_compute in E; discriminate].
   split; [exact (accepted_single _ _ _ E)|].
   vm_compute in E. inversion E; subst tg. clear E. vm_compute. repeat split; reflexivity.
+Qed.
+
+(* ---- non-vacuity of the Struct part: an attribute of a Struct type with an explicitly optional member whose
+        value type does not accept undef, directly and below Array; the value leaves the member out ----
+   type Ts = Object[{attributes => {a => Integer, s => Struct[{Optional['x'] => Integer, 'y' => String}],
+                                    l => {type => Array[Struct[{'m' => Integer, Optional['n'] => Integer[0,5]}]], value => []}}}] *)
+Definition ex_sxy : ty := TStructCons (s2l "x") false (TInteger min_int64 max_int64) (TStructCons (s2l "y") true TString TStructNil).
+Definition ex_smn : ty := TStructCons (s2l "m") true (TInteger min_int64 max_int64) (TStructCons (s2l "n") false (TInteger 0 5) TStructNil).
+Definition ex_ts : value :=
+  VHash [(k_attributes, VHash [(s2l "a", VType (TInteger min_int64 max_int64)); (s2l "s", VType ex_sxy);
+                               (s2l "l", VHash [(k_type, VType (TArray ex_smn)); (k_value, VArr [])])])].
+
+Example C17_struct_nonvacuous :
+  match define RText [] (s2l "Ts") ex_ts with
+  | Ok ts =>
+    accepted ts /\ ser_complete ts = true /\ ai_req (d_info ts) = 2%nat /\
+    let sv := VHash [(s2l "y", VStr (s2l "v"))] in
+    let lv := VArr [VHash [(s2l "m", VInt 3)]] in
+    inst ex_sxy sv = true /\ inst ex_sxy (VHash [(s2l "x", VInt 1)]) = false /\
+    inst ex_sxy (VHash [(s2l "y", VStr (s2l "v")); (s2l "z", VInt 1)]) = false /\
+    asg ex_sxy (TStructCons (s2l "y") true TString TStructNil) = true /\
+    asg (TStructCons (s2l "y") true TString TStructNil) ex_sxy = false /\
+    match new_object ts [VInt 1; sv; lv], new_object ts [VHash [(s2l "a", VInt 1); (s2l "s", sv); (s2l "l", lv)]],
+          new_object ts [VInt 1; sv], new_object ts [VHash [(s2l "a", VInt 1); (s2l "s", VHash [(s2l "x", VInt 1)])]] with
+    | Ok o1, Ok o2, Ok o3, Err e =>
+      obj_eqb o1 o2 = Ok true /\ obj_eqb o2 o1 = Ok true /\ obj_eqb o1 o3 = Ok false /\
+      get o2 (s2l "s") = Ok (Some sv) /\ get o3 (s2l "l") = Ok (Some (VArr [])) /\
+      init_hash o1 = Ok [(s2l "a", VInt 1); (s2l "s", sv); (s2l "l", lv)] /\
+      init_hash o3 = Ok [(s2l "a", VInt 1); (s2l "s", sv)] /\
+      named_dispatch (d_info ts) [VHash [(s2l "a", VInt 1); (s2l "s", sv)]] <> None /\ e = EIllegalArguments
+    | _, _, _, _ => False
+    end
+  | Err _ => False
+  end.
+Proof.
+  destruct (define RText [] (s2l "Ts") ex_ts) as [ts|] eqn:E; [|vm_compute in E; discriminate].
+  split; [exact (accepted_single _ _ _ E)|].
+  vm_compute in E. inversion E; subst ts. clear E. vm_compute. repeat split; try reflexivity; discriminate.
 Qed.
